@@ -326,7 +326,8 @@ func (x *rrun) derived() {
 	r := x.r
 	// operand: a shuffled mix of live and other keys
 	var ids []int32
-	switch r.Intn(4) {
+	switch r.Intn(5) {
+	case 4: // empty operand
 	case 0: // superset of the live keys
 		ids = append(ids, m.order...)
 		for i := 0; i < r.Intn(5); i++ {
@@ -474,6 +475,21 @@ func (x *rrun) judgeColl(v starlark.Value, want *model, opkey string, dup bool) 
 	}
 	if err := starlark.VerifCheckTable(v); err != nil {
 		x.derivedBad(opkey, dup, false, "VerifCheckTable(result): %v", err)
+	}
+	// aliasing: the result is a new collection; emptying it must not touch the receiver
+	alias := v == x.t.value()
+	switch c := v.(type) {
+	case *starlark.Dict:
+		c.Clear()
+	case *starlark.Set:
+		c.Clear()
+	}
+	if alias || x.t.length() != x.m.len() {
+		x.nderivedBad++
+		if x.nderivedBad <= 6 {
+			x.c.Violation("C12 alias "+opkey, fmt.Sprintf("%s step %d (Go API): the result shares its table with the receiver (same object: %v; receiver len %d after clearing the result, model %d)", x.label, x.step, alias, x.t.length(), x.m.len()), nil)
+		}
+		x.nbad++ // the receiver is gone: end the history
 	}
 }
 
